@@ -2,7 +2,7 @@
 # tools/evalseed.sh <PID> <worktree> <patch.diff> [tier]
 # Apply a seeded change in a scratch worktree (never /repo), run the check against it, revert.
 # Prints DETECTED / MISSED.  Evidence of these runs goes to out/seed-evidence, not to evidence/.
-PID=$1; WT=$2; PATCH=$3; TIER=${4:-quick}
+PID=$1; WT=$2; PATCH=$3; TIER=${4:-quick}; VH="$(cd "$(dirname "$0")/.." && pwd)"
 cd "$WT" || exit 2
 git checkout -q -- . || exit 2
 # seeds are applied on the commit they were written against (meta.json base_commit), unless they still apply on main
@@ -10,9 +10,9 @@ BASE=$(python3 -c "import json,os,sys; p=os.path.join(os.path.dirname('$PATCH'),
 git checkout -q --detach main 2>/dev/null
 if ! git apply --check "$PATCH" 2>/dev/null && [ -n "$BASE" ]; then git checkout -q --detach "$BASE"; echo "(applied on base commit $BASE)"; fi
 git apply "$PATCH" || { echo "PATCH-DOES-NOT-APPLY"; exit 2; }
-cd /verif
+cd "$VH"
 mkdir -p out/seed-evidence
-DREYE_REPO="$WT" VERIF_EVIDENCE_DIR=/verif/out/seed-evidence VERIF_OUT_DIR=/verif/out/seed-out ./check "$PID" --tier "$TIER" > "out/seed-$PID-$$.log" 2>&1
+DREYE_REPO="$WT" VERIF_EVIDENCE_DIR=$VH/out/seed-evidence VERIF_OUT_DIR=$VH/out/seed-out ./check "$PID" --tier "$TIER" > "out/seed-$PID-$$.log" 2>&1
 rc=$?
 git -C "$WT" checkout -q -- .
 if [ $rc -eq 1 ]; then echo "DETECTED rc=1: $(grep -c '^VIOLATION' out/seed-$PID-$$.log) violation lines; first: $(grep '^VIOLATION' out/seed-$PID-$$.log | head -1 | cut -c1-260)";
